@@ -50,7 +50,7 @@ def RULE(tier):
     n = N1[tier]
     return (
         f"ops sum prod min max any all mean var std (ddof 0,1) moment(0..4) + nan-variants, arg(nan)min/max, (nan)cumsum/cumprod "
-        f"(sequential and blelloch), topk/argtopk (every k in +-1..n), (nan)median, (nan)quantile (6 q specs x 5 methods) on the real "
+        f"(sequential and blelloch), topk/argtopk (every k in +-1..n), (nan)median, (nan)quantile ({6 if tier == "thorough" else 5} q specs x 5 methods) on the real "
         f"dask.array functions x EVERY chunking of every 1-d length 0..{n} (scans: 0..{NSCAN[tier]}), 2-d shapes {SHAPES2[tier]}, 3-d "
         f"{SHAPES3[tier]}, empty shapes {SHAPES0}, plus every chunking with zero-length chunks (<= 3 chunks, n <= 4) x every axis selection "
         "(None, each int, each tuple; negative spellings on a sub-family) x keepdims x split_every in {None,2,3,16,{0:2},{0:3,1:2}}. Data: "
@@ -322,7 +322,7 @@ def gen_med(op, tier):
                 for kd in (False, True):
                     yield ("med", op, shp, ch, dk, ax, kd, None, None)
             else:
-                for q in QS if not ispat else (0.0, 0.5, 1.0, (0.25, 0.75)):
+                for q in (QS if tier == "thorough" else QS[:3] + QS[4:]) if not ispat else (0.0, 0.5, 1.0, (0.25, 0.75)):
                     yield ("med", op, shp, ch, dk, ax, False, q, "linear")
                 yield ("med", op, shp, ch, dk, ax, True, 0.5, "linear")
                 yield ("med", op, shp, ch, dk, ax, True, (0.25, 0.75), "linear")
